@@ -105,8 +105,8 @@ func verifParse(filename string, input []byte, o *parsersim.Opts, ctx *kernel.Ct
 	opts := []Option{GlobalStore("sim", ctx)}
 	ctx.Nested = func() {
 		simrt.Nested(200000, func() {
-			np := kernel.Plan{Seed: ctx.Plan.Seed ^ 0x5bd1e995, PredTruePct: 50, StateKeys: 2, MaxEvents: 200}
-			Parse("nested", []byte("ab\n"), GlobalStore("sim", kernel.NewCtx(&np)), MaxExpressions(300))
+			np := kernel.Plan{Seed: ctx.Plan.Seed ^ 0x5bd1e995, PredTruePct: 50, StateKeys: 2, MaxEvents: 60}
+			Parse("nested", []byte("ab\n"), GlobalStore("sim", kernel.NewCtx(&np)), MaxExpressions(120))
 		})
 	}
 %[6]s
